@@ -142,6 +142,15 @@ func (g *ExprGen) pathStep(v *ref.V) *ref.Expr {
 		switch c := r.IntN(10); {
 		case c < 6 && len(keys) > 0:
 			k := keys[r.IntN(len(keys))]
+			if r.IntN(8) == 0 {
+				// a key list: one result per LISTED key, in the order listed - a key named twice gives its value twice
+				k2 := keys[r.IntN(len(keys))]
+				args := []*ref.Expr{ref.Lit(ref.StrV(k)), ref.Lit(ref.StrV(k2))}
+				if r.IntN(2) == 0 {
+					args = append(args, ref.Lit(ref.StrV(k)))
+				}
+				return ref.Index(args...)
+			}
 			if r.IntN(5) == 0 {
 				return ref.Index(ref.Lit(ref.StrV(k)))
 			}
